@@ -1,9 +1,11 @@
 """C02 — the cache neither loses nor duplicates datapoints; last write wins; size exact."""
 from vp_lib.api import H, cover
 from vp_lib import cachelab as L
-from vp_lib.carbonenv import make_receiver
+from vp_lib.carbonenv import make_receiver, quiet
 
 import carbon.protocols as protocols  # noqa: E402
+
+quiet(protocols)
 
 
 def _sorted_unique(batch):
@@ -203,7 +205,7 @@ HARNESSES = [
     covers=['empty', 'drained'], replay='replay_drain_step',
     encodes=['carbon.cache:_MetricCache.drain_metric', 'carbon.cache:_MetricCache.pop', 'carbon.cache:*Strategy.choose_item'],
     assumptions=_ASSUME),
-  H('C02_query', quick=dict(timeout=200), covers=['answered'], replay='replay_query',
+  H('C02_query', quick=dict(timeout=200, shards=_S), covers=['answered'], replay='replay_query',
     encodes=['carbon.protocols:CacheManagementHandler.stringReceived (cache-query, cache-query-bulk)'],
     assumptions=_ASSUME + ['request dict injected past the unpickler; pickle.dumps of the response = identity (codec contract)']),
   H('C02_seq', quick=dict(timeout=280, shards=_S, extra_pre=['n <= 3']), thorough=dict(timeout=1500, shards=_S),
